@@ -67,6 +67,11 @@ def strategy(tier):
 
 
 def enumerate_cases(tier):
+    # state-space exploration of the full alphabet, one shard per first operation
+    for n_ops, res, bdepth in ((2, [["r1", False], ["r2", False]], 7 if tier == "thorough" else 5),
+                               (3, [["r1", True], ["r2", False]], 6 if tier == "thorough" else 4)):
+        for first in _alphabet(n_ops, len(res)):
+            yield {"kind": "bfs", "ops_n": n_ops, "res": res, "prio": [5, 1, 9], "strategy": "priority", "prefix": [first], "depth": bdepth}
     depth = 6 if tier == "thorough" else 4
     alphabet = [["acq", o, r] for o in OPS for r in RES]
     res = [[r, False] for r in RES]
@@ -149,7 +154,50 @@ class _Models:
                 self._drop(S, lambda e: e[0] == a or e[1] == a)
 
 
+def _alphabet(n_ops, n_res):
+    ops, res = OPS[:n_ops], RES[:n_res]
+    return ([["acq", o, r] for o in ops for r in res] + [["rel", o, r] for o in ops for r in res] + [["complete", o] for o in ops] +
+            [["abort", o] for o in ops] + [["start", o] for o in ops] + [["watchdog"]])
+
+
+def _judge_bfs(case):
+    """Exhaustive exploration of the full alphabet below one prefix, memoised on (implementation state, model state):
+    every distinct reachable state is expanded once, every transition is judged by the same oracle as a generated history."""
+    out = Outcome()
+    out.nontrivial = True
+    base = {k: case[k] for k in ("ops_n", "res", "prio", "strategy")}
+    alphabet = _alphabet(case["ops_n"], len(case["res"]))
+    root = judge(dict(base, hist=case["prefix"], _want_key=True))
+    for f in root.findings:
+        out.fail(f.sig, f.msg, f.detail)
+    seen = {root.extra}
+    frontier = [list(case["prefix"])] if not any(f.sig.endswith("unexplained") for f in root.findings) else []
+    transitions = 0
+    for _depth in range(len(case["prefix"]), case["depth"]):
+        nxt = []
+        for h in frontier:
+            for op in alphabet:
+                r = judge(dict(base, hist=h + [op], _want_key=True))
+                transitions += 1
+                for f in r.findings:
+                    out.fail(f.sig, f.msg, dict(f.detail or {}, history=h + [op]))
+                if r.extra is None or r.extra in seen:
+                    continue
+                seen.add(r.extra)
+                if not any(f.sig.endswith("unexplained") or f.sig.startswith(("raise", "victim", "report", "ended")) for f in r.findings):
+                    nxt.append(h + [op])
+                for lab in r.labels:
+                    if lab in ("ref-cycle", "impl-cycle", "watchdog-kill", "report-validated"):
+                        out.label(lab)
+        frontier = nxt
+    out.metrics = {"bfs_states": len(seen), "bfs_transitions": transitions}
+    out.label("bfs")
+    return out
+
+
 def judge(case):
+    if case.get("kind") == "bfs":
+        return _judge_bfs(case)
     from operon_ai.coordination.controller import CellCycleController
     from operon_ai.coordination.types import LockResult, ResourceLock
     from operon_ai.coordination.watchdog import ApoptosisReason, Watchdog
@@ -320,6 +368,15 @@ def judge(case):
                     out.fail("report:not-a-real-cycle", "reported cycle %s / %s is not made of real wait-for edges %s" % (agents, triples, truth), {"step": i})
                     return out
                 out.label("report-validated")
+    if case.get("_want_key"):
+        out.extra = (
+            tuple(sorted((rid, lk.owner, lk.hold_count, lk.owner_priority) for rid, lk in ctrl.resources.items())),
+            tuple(sorted((o, tuple(sorted(ctxs[o].acquired_resources)), ctxs[o].priority) for o in active)),
+            tuple(sorted((w, tuple(sorted(lst))) for w, lst in ctrl.dependency_graph.edges.items())),
+            tuple(sorted((w, tuple(sorted(pr))) for w, pr in M.pending.items() if pr)),
+            tuple(tuple(sorted(M.edges[S])) for S in SWITCH_SETS),
+            tuple(sorted(tuple(sorted(S)) for S in consistent)),
+        )
     if len(blocked_by) >= 2:
         out.nontrivial = True
         out.label("two-blocked")
